@@ -382,11 +382,15 @@ func TestC18(t *testing.T) {
 			lp.PoolTraceEnd(fmt.Sprintf("c18 tcp %d-ops", len(cur.ops)))
 		case "tcpsrv":
 			lp.PoolTraceBegin()
-			res = runSrvTCP(t, *cur)
+			res = runSrvTCP(t, *cur, false)
 			lp.PoolTraceEnd(fmt.Sprintf("c18 tcpsrv %d-ops", len(cur.ops)))
+		case "tcpsrvdef":
+			res = runSrvTCP(t, *cur, true)
+		case "dtlssrvdef":
+			res = runSrvDTLS(t, *cur, true)
 		case "dtlssrv":
 			lp.PoolTraceBegin()
-			res = runSrvDTLS(t, *cur)
+			res = runSrvDTLS(t, *cur, false)
 			lp.PoolTraceEnd(fmt.Sprintf("c18 dtlssrv %d-ops", len(cur.ops)))
 		}
 		for _, l := range res {
